@@ -6,7 +6,10 @@ use crate::{Label, Sodg};
 use anyhow::{anyhow, Context, Result};
 use log::trace;
 use regex::Regex;
+#[cfg(not(feature = "verif"))]
 use std::collections::HashMap;
+#[cfg(feature = "verif")]
+use crate::verif::collections::HashMap;
 use std::str::FromStr;
 use std::sync::LazyLock as Lazy;
 
